@@ -58,6 +58,7 @@ fn main() {
         std::process::exit(2);
     };
     h8verif::engine::emu::install_panic_hook();
+    h8verif::engine::logctl::install();
     let base = Baseline::new();
     // --- the seconds-long tier: saved (shrunk) failing inputs of earlier findings and of seeded changes
     // (/verif/corpus/regress/<id>/*.json) are re-judged first, directly, without any generator. On a tree where the
@@ -73,11 +74,22 @@ fn main() {
             let Some(v) = std::fs::read_to_string(&f).ok().and_then(|t| serde_json::from_str::<serde_json::Value>(&t).ok()) else { continue };
             let c = Ctx { tier, seed, threads, findings: Findings::load(&verif_root().join("known_findings.json")), survey: false, replay: Some(v), start: Instant::now(), base: base.clone(), profile: profile_name() };
             print!("regress {}: ", f.file_name().and_then(|x| x.to_str()).unwrap_or(""));
-            match h8verif::checks::dispatch(&id, &c) {
-                Some(1) => failed += 1,
-                Some(0) | None => {}
-                Some(_) => println!("(not replayable here: skipped)"),
+            // a saved input is judged with logging at the binary's default level and at the most talkative one
+            for level in [3u8, 5] {
+                h8verif::engine::logctl::freeze(level);
+                match h8verif::checks::dispatch(&id, &c) {
+                    Some(1) => {
+                        failed += 1;
+                        break;
+                    }
+                    Some(0) | None => {}
+                    Some(_) => {
+                        println!("(not replayable here: skipped)");
+                        break;
+                    }
+                }
             }
+            h8verif::engine::logctl::FROZEN.store(false, std::sync::atomic::Ordering::Relaxed);
         }
         std::env::remove_var("H8VERIF_QUIET_REPLAY");
         if failed == 0 && std::env::var("H8VERIF_REGRESS_ONLY").is_ok() {
@@ -101,7 +113,22 @@ fn main() {
         profile: profile_name(),
     };
     // a panic of the machinery itself (outside the guarded calls into the emulator) is exit 2, never a verdict
-    let r = std::panic::catch_unwind(std::panic::AssertUnwindSafe(|| h8verif::checks::dispatch(&id, &ctx)));
+    let r = std::panic::catch_unwind(std::panic::AssertUnwindSafe(|| {
+        if ctx.replay.is_some() {
+            // a replay is judged at every log level a case may have been generated with; the first failing one decides
+            let mut r = None;
+            for level in [3u8, 5, 0, 4, 2] {
+                h8verif::engine::logctl::freeze(level);
+                r = h8verif::checks::dispatch(&id, &ctx);
+                if r != Some(0) {
+                    break;
+                }
+            }
+            r
+        } else {
+            h8verif::checks::dispatch(&id, &ctx)
+        }
+    }));
     let r = match r {
         Ok(r) => r,
         Err(_) => {
